@@ -83,6 +83,8 @@ def replay_one(replayer, exe, seed, env_extra, tdir):
         rc, o, e = sh([replayer, tr, os.path.join(GEN, "Sites.json")], timeout=60)
         out["replay_rc"] = rc
         out["replay"] = o.strip()[:1500]
+        import flowcheck
+        out["flow_pairs"], out["flow_bad"] = flowcheck.check_trace(tr)
         os.remove(tr)
     else:
         out["replay_rc"] = -1
@@ -112,6 +114,8 @@ def replay_summary(results):
                     sites[k] = sites.get(k, 0) + int(v)
         elif r["run"].get("prop") is None:
             mism.append({"seed": r["seed"], "replay": r.get("replay")})
+        if r.get("flow_bad"):
+            mism.append({"seed": r["seed"], "replay": "translator validation (gen/flow.py vs execution): " + r["flow_bad"][0]})
     return steps, sites, mism
 
 
